@@ -320,20 +320,23 @@ GRAPH_CALLS = ("map_blocks", "map_overlap", "blockwise", "from_array", "from_del
 
 
 def names_in(func, node, depth=0):
-    """the free names an expression is built from, looking through local names bound exactly once"""
+    """the free names an expression is built from (`x.attr` as such), looking through local names bound exactly once"""
     out = set()
     if node is None or depth > 4:
         return out
     binds = local_bindings(func) if func is not None else {}
+    inner = set()
     for n in ast.walk(node):
-        if isinstance(n, ast.Name):
+        if isinstance(n, ast.Attribute) and isinstance(n.value, ast.Name):
+            out.add(ast.unparse(n))
+            inner.add(id(n.value))
+    for n in ast.walk(node):
+        if isinstance(n, ast.Name) and id(n) not in inner:
             vals = binds.get(n.id)
             if vals is not None and len(vals) == 1 and vals[0] is not None and depth < 4:
                 out |= names_in(func, vals[0], depth + 1)
             else:
                 out.add(n.id)
-        elif isinstance(n, ast.Attribute) and isinstance(n.value, ast.Name):
-            out.add(ast.unparse(n))
     return out
 
 
